@@ -8,7 +8,8 @@ pub(crate) fn position_to_utf8(text: &str, position: lsp_types::Position) -> usi
 
     for c in text.chars() {
         if line == position.line {
-            if character == position.character || c == '\n' || c == '\r' {
+            // A position inside a surrogate pair resolves to the end of that character.
+            if character >= position.character || c == '\n' || c == '\r' {
                 break;
             }
             character += c.len_utf16() as u32;
